@@ -17,10 +17,12 @@ def sh(cmd, cwd=None, timeout=3600):
 
 def main():
     src = os.path.abspath(sys.argv[1]); sid = sys.argv[2]
-    checks = "target"; tier = "quick"
+    checks = "target"; tier = "quick"; confirm_only = False; reuse = False
     a = sys.argv[3:]
     while a:
         if a[0] == "--checks": checks = a[1]; a = a[2:]
+        elif a[0] == "--confirm-only": confirm_only = True; a = a[1:]   # phase 1 only (does not touch /repo's working tree)
+        elif a[0] == "--reuse-confirm": reuse = True; a = a[1:]         # skip phase 1 if an earlier run stored a full confirmation
         elif a[0] == "--tier": tier = a[1]; a = a[2:]
         else: a = a[1:]
     patch = os.path.join(src, "patch.diff"); demo = os.path.join(src, "demo.rs")
@@ -32,34 +34,44 @@ def main():
            "author_commands": meta_in.get("commands"), "confirmed": {}, "checks": {}}
     # ---- 1. confirm in a scratch worktree
     wt = f"/tmp/seedver-{sid}"
-    sh(f"git -C /repo worktree remove --force {wt}"); shutil.rmtree(wt, ignore_errors=True)
-    rc, out = sh(f"git -C /repo worktree add --detach {wt} HEAD")
+    prev = None
+    if reuse:
+        try:
+            prev = json.load(open(f"/verif/seeded/{sid}/meta.json"))
+            if not prev.get("confirmed", {}).get("all"): prev = None
+        except Exception: prev = None
+    if prev:
+        res["confirmed"] = prev["confirmed"]; res["checks"] = prev.get("checks", {})
+    else:
+        sh(f"git -C /repo worktree remove --force {wt}"); shutil.rmtree(wt, ignore_errors=True)
+        rc, out = sh(f"git -C /repo worktree add --detach {wt} HEAD")
     try:
-        rc, out = sh(f"git apply --check {patch} && git apply {patch}", cwd=wt)
-        res["confirmed"]["patch_applies"] = rc == 0
-        if rc != 0:
-            res["confirmed"]["error"] = out[-500:]
-        else:
-            changed = sh("git diff --stat -- src | tail -1", cwd=wt)[1].strip()
-            res["confirmed"]["diffstat"] = changed
-            rc, out = sh("cargo test --workspace --no-fail-fast --offline 2>&1 | grep -E '^test result|error(\\[|:)' ", cwd=wt)
-            lines = [l for l in out.splitlines() if l.startswith("test result")]
-            ok = len(lines) >= 2 and all(" 0 failed" in l for l in lines) and "error" not in out
-            res["confirmed"]["existing_tests_pass_with_change"] = ok
-            res["confirmed"]["test_summary"] = lines
-            os.makedirs(os.path.join(wt, "tests"), exist_ok=True)
-            shutil.copy(demo, os.path.join(wt, "tests", "demo.rs"))
-            rc, out = sh("cargo test --offline --test demo 2>&1 | tail -15", cwd=wt)
-            res["confirmed"]["demo_fails_with_change"] = ("test result: FAILED" in out)
-            sh("git checkout -- src", cwd=wt)
-            rc, out = sh("cargo test --offline --test demo 2>&1 | tail -8", cwd=wt)
-            res["confirmed"]["demo_passes_without_change"] = ("test result: ok" in out and "0 failed" in out)
+      if not prev:
+            rc, out = sh(f"git apply --check {patch} && git apply {patch}", cwd=wt)
+            res["confirmed"]["patch_applies"] = rc == 0
+            if rc != 0:
+                res["confirmed"]["error"] = out[-500:]
+            else:
+                changed = sh("git diff --stat -- src | tail -1", cwd=wt)[1].strip()
+                res["confirmed"]["diffstat"] = changed
+                rc, out = sh("cargo test --workspace --no-fail-fast --offline 2>&1 | grep -E '^test result|error(\\[|:)' ", cwd=wt)
+                lines = [l for l in out.splitlines() if l.startswith("test result")]
+                ok = len(lines) >= 2 and all(" 0 failed" in l for l in lines) and "error" not in out
+                res["confirmed"]["existing_tests_pass_with_change"] = ok
+                res["confirmed"]["test_summary"] = lines
+                os.makedirs(os.path.join(wt, "tests"), exist_ok=True)
+                shutil.copy(demo, os.path.join(wt, "tests", "demo.rs"))
+                rc, out = sh("cargo test --offline --test demo 2>&1 | tail -15", cwd=wt)
+                res["confirmed"]["demo_fails_with_change"] = ("test result: FAILED" in out)
+                sh("git checkout -- src", cwd=wt)
+                rc, out = sh("cargo test --offline --test demo 2>&1 | tail -8", cwd=wt)
+                res["confirmed"]["demo_passes_without_change"] = ("test result: ok" in out and "0 failed" in out)
     finally:
         sh(f"git -C /repo worktree remove --force {wt}"); shutil.rmtree(wt, ignore_errors=True)
     good = all(res["confirmed"].get(k) for k in ("patch_applies", "existing_tests_pass_with_change", "demo_fails_with_change", "demo_passes_without_change"))
     res["confirmed"]["all"] = good
     # ---- 2. run the checks against it
-    if good:
+    if good and not confirm_only:
         allp = [json.loads(l)["id"] for l in open("/verif/properties.jsonl")]
         if checks == "target": todo = [prop]
         elif checks == "all": todo = [prop] + [p for p in allp if p != prop]
